@@ -7,6 +7,7 @@ import (
 	"math/rand"
 	"mime/multipart"
 	"net/url"
+	"strings"
 
 	pprof "github.com/google/pprof/profile"
 )
@@ -22,6 +23,7 @@ type ProfCase struct {
 	UntilSec    int64
 	Service     string
 	Tags        [][2]string
+	PadComment  int `json:",omitempty"`
 }
 
 type ProfStack struct {
@@ -40,6 +42,7 @@ type ProfOpts struct {
 	Deep      bool // one stack deeper than the 511-level clamp
 	NoLines   bool
 	MultiLine bool
+	PadComment int // a pprof comment of this many bytes: the stored payload grows, the stacks do not
 }
 
 var periodTypes = [][2]string{{"cpu", "nanoseconds"}, {"space", "bytes"}, {"goroutine", "count"}, {"block", "count"}, {"contentions", "count"}, {"wall", "nanoseconds"}}
@@ -81,6 +84,7 @@ func NewProfCase(r *rand.Rand, o ProfOpts) ProfCase {
 		c.Stacks = append(c.Stacks, st)
 	}
 	c.Tags = [][2]string{{"rid", o.ID}, {"region", SafeStr(r, 2, 5)}}
+	c.PadComment = o.PadComment
 	return c
 }
 
@@ -97,6 +101,9 @@ func (c ProfCase) Build(multiLine bool) *pprof.Profile {
 		fns[i] = &pprof.Function{ID: uint64(i + 1), Name: n, SystemName: n, Filename: "f.go"}
 	}
 	p.Function = fns
+	if c.PadComment > 0 {
+		p.Comments = []string{"pad-" + c.ID + "-" + strings.Repeat("c", c.PadComment)}
+	}
 	locByKey := map[string]*pprof.Location{}
 	loc := func(f int, noLine bool) *pprof.Location {
 		k := fmt.Sprintf("%d/%v", f, noLine)
